@@ -1,4 +1,5 @@
 """C12 — DeepHash equality matches order-ignoring diff emptiness under the same options."""
+import enum
 import copy, datetime
 from .. import core, hashing as HS
 from ..gen import Gen, strict_eq
@@ -32,6 +33,13 @@ OPTIONS = {
 NORMALISER_OF = {'ignore_string_case': 'ignore_string_case', 'ignore_string_type_changes': 'ignore_string_type_changes', 'ignore_numeric_type_changes': 'ignore_numeric_type_changes',
                  'significant_digits': 'significant_digits', 'significant_digits_e': 'significant_digits', 'significant_digits_0': 'significant_digits', 'truncate_datetime': 'truncate_datetime',
                  'default_timezone': 'default_timezone', 'use_enum_value': 'use_enum_value'}
+
+
+class Level(enum.Enum):
+    """a second Enum class whose members share values with C11.Color"""
+    LOW = 1
+    MID = 2.5
+    NAME = 'green'
 
 
 def both(a, b, rep, kw):
@@ -177,6 +185,11 @@ def run(ctx, impl_only=False):
         for w in (lambda v: v, lambda v: {'k': v}, lambda v: {'k': {'j': v}, 'z': 1}):
             for nm in ('ignore_numeric_type_changes', 'significant_digits', 'significant_digits_e'):
                 cases.append((w(x), w(y), (nm,) if nm == 'ignore_numeric_type_changes' else ('ignore_numeric_type_changes', nm), 'direct'))
+    # members of two Enum classes with equal (or different) values, compared directly and inside a dictionary in a list
+    for (x, y) in [(C11.Color.RED, Level.LOW), (Level.LOW, C11.Color.RED), (C11.Color.GREEN, Level.NAME), (C11.Color.RED, Level.MID), (Level.MID, 2.5), (Level.LOW, 1),
+                   (C11.Color.GREEN, Level.LOW)]:
+        for w in (lambda v: v, lambda v: {'k': v}, lambda v: [{'k': v}, 0], lambda v: {'k': {'j': v}, 'z': 1}):
+            cases.append((w(x), w(y), ('use_enum_value',), 'direct'))
     for case_ in cases:
         a, b, combo = case_[:3]
         direct = len(case_) > 3
@@ -230,13 +243,14 @@ def search(ctx):
 
 
 def replay(ctx, payload):
-    env = {'datetime': datetime, 'Color': C11.Color, 'nan': float('nan'), '__builtins__': {}}
+    env = {'datetime': datetime, 'Color': C11.Color, 'Level': Level, 'nan': float('nan'), '__builtins__': {}}
     ok = True
     for c in payload.get('cases', []):
         case = c['case']
         if 'a' not in case:
             print('  ', case, c.get('why')); ok = False; continue
-        fix = lambda s: s.replace('<Color.RED: 1>', 'Color.RED').replace("<Color.GREEN: 'green'>", 'Color.GREEN')
+        fix = lambda s: (s.replace('<Color.RED: 1>', 'Color.RED').replace("<Color.GREEN: 'green'>", 'Color.GREEN').replace('<Level.LOW: 1>', 'Level.LOW')
+                         .replace('<Level.MID: 2.5>', 'Level.MID').replace("<Level.NAME: 'green'>", 'Level.NAME'))
         a, b = eval(fix(case['a']), env), eval(fix(case['b']), env)
         kw = {}
         for nm in case['options']:
